@@ -34,7 +34,7 @@ class VfX(Exception):
 EXC = {c.__name__: c for c in (
     VfA, VfB, VfC, VfX, KeyError, LookupError, ZeroDivisionError,
     ArithmeticError, ValueError, TypeError, IndexError, RuntimeError,
-    AttributeError, Exception)}
+    AttributeError, NameError, Exception)}
 
 
 class Injected(Exception):
